@@ -851,3 +851,81 @@ theorem beta_density_normalised (sp0 : Fn ℝ) (sp : Sp ℝ) (a : Base ℝ) (hb 
   rw [exp_logpdf_beta sp0 sp a hb hα hβ x hx.1 hx.2, betaPDFReal, if_pos ⟨hx.1, hx.2⟩]
 
 end AF.C17
+
+namespace AF.C17
+open AF.Msg
+
+/-! ## growth: stacking transforms - CDF, density and quantiles of a transformed message built on a transformed message -/
+
+section stacking
+variable {F : Type} [Field F]
+
+/-- `_transform` of a stack `trs ++ ts` applies `ts` first (the outer transforms), then `trs` (any depths) -/
+theorem transformChain_append (fn : Fn F) (trs ts : List (Tr F)) (x : F) :
+    transformChain fn (trs ++ ts) x = transformChain fn trs (transformChain fn ts x) := by
+  simp [transformChain, List.foldr_append]
+
+/-- `_inverse_transform` of a stack `trs ++ ts` undoes `trs` first, then `ts` -/
+theorem inverseChain_append (fn : Fn F) (trs ts : List (Tr F)) (x : F) :
+    inverseChain fn (trs ++ ts) x = inverseChain fn ts (inverseChain fn trs x) := by
+  simp [inverseChain, List.foldl_append]
+
+/-- the log-determinants of stacked transforms add, each taken at its own input (induction over the inner stack) -/
+theorem transformDet_append (fn : Fn F) (trs ts : List (Tr F)) (x : F) :
+    transformDet fn (trs ++ ts) x =
+      ((transformDet fn trs (transformChain fn ts x)).1,
+       (transformDet fn ts x).2 + (transformDet fn trs (transformChain fn ts x)).2) := by
+  induction trs with
+  | nil =>
+    show transformDet fn ts x = _
+    ext
+    · simp [transformDet, transformDet_fst]
+    · simp [transformDet]
+  | cons t rest ih =>
+    simp only [List.cons_append, transformDet, ih]
+    ext
+    · rfl
+    · simp only; ring
+
+/-- change of variables through a wrapped message (`TransformedMessage(m, *ts)`, `m` itself transformed to any depth):
+its CDF is `m`'s CDF at the transformed point, its density (`factor`) is `m`'s density at the transformed point plus
+the log-determinant of the new transforms, `logpdf` omits that term, and its quantile function and mean are `m`'s
+mapped back through the new transforms -/
+theorem wrap_change_of_variables (fn : Fn F) (m : M F) (ts : List (Tr F)) (id : Option Nat) (lo hi x u : F) :
+    (m.wrap ts id lo hi).cdf fn x = m.cdf fn (transformChain fn ts x) ∧
+    (m.wrap ts id lo hi).factor fn x = m.factor fn (transformChain fn ts x) + (transformDet fn ts x).2 ∧
+    (m.wrap ts id lo hi).logpdf fn x = m.logpdf fn (transformChain fn ts x) ∧
+    (m.wrap ts id lo hi).valueFor fn u = inverseChain fn ts (m.valueFor fn u) ∧
+    (m.wrap ts id lo hi).mean fn = inverseChain fn ts (m.mean fn) ∧
+    (m.wrap ts id lo hi).natural = m.natural := by
+  refine ⟨?_, ?_, ?_, ?_, ?_, rfl⟩
+  · simp only [M.cdf, M.wrap, M.trs, M.base, transformChain_append]
+  · simp only [M.factor, M.wrap, M.trs, M.base, transformDet_append]; ring
+  · simp only [M.logpdf, M.wrap, M.trs, M.base, transformChain_append]
+  · simp only [M.valueFor, M.wrap, M.trs, M.base, inverseChain_append]
+  · simp only [M.mean, M.wrap, M.trs, M.base, inverseChain_append]
+
+end stacking
+
+/-- density ↔ CDF for transformed messages of any stack depth: where the base message's CDF has the base density as
+its derivative, the CDF of the transformed message has the density the transformed message reports (`exp(factor)`)
+as its derivative (chain rule through the whole stack) -/
+theorem transformed_cdf_deriv_is_density (fn : Fn ℝ) (m : M ℝ) (x : ℝ) (h : DerivOK fn m.trs x)
+    (hbase : HasDerivAt (m.base.cdf fn) (Real.exp (m.base.logpdf fn (transformChain fn m.trs x)))
+      (transformChain fn m.trs x)) :
+    HasDerivAt (m.cdf fn) (Real.exp (m.factor fn x)) x := by
+  have hT := transformDet_is_log_deriv fn m.trs x h
+  have hcomp := HasDerivAt.comp x hbase hT
+  have hf : m.cdf fn = (m.base.cdf fn) ∘ (transformChain fn m.trs) := by funext y; rfl
+  have hd : Real.exp (m.factor fn x) =
+      Real.exp (m.base.logpdf fn (transformChain fn m.trs x)) * Real.exp (transformDet fn m.trs x).2 := by
+    simp only [M.factor, transformDet_fst, Real.exp_add]
+  rw [hf, hd]; exact hcomp
+
+/-- non-vacuity: the stack of a `UniformPrior(2, 5)` message on top of a log transform is differentiable wherever
+the inner point is positive -/
+example (sp : Fn ℝ) (x : ℝ) (hx : 0 < (x - 2) / 3) : DerivOK (realFn sp) [.log, .shift 2 3] x := by
+  refine ⟨⟨trivial, (logDet_is_log_deriv sp _).1 2 3 (by norm_num)⟩, ?_⟩
+  exact (logDet_is_log_deriv sp _).2.1 hx
+
+end AF.C17
